@@ -1,6 +1,6 @@
 """C02 — The emitted document means what the program says: the two 'nothing is silently dropped' clauses."""
 import re
-from facts import callee_of
+from facts import callee_of, hir_walk, callee_def, variant_of
 import pathrules as P
 import mirflow as MF
 
@@ -16,7 +16,7 @@ EXPLANATION = (
     "(module, node): shared with C09.R2. (R4) the evaluator honours the resolver's binding (shared with C08.R1-R3): a use must not "
     "evaluate to a same-named binding of a caller. Correctness of values and attachment to the right declaration need a reference "
     "semantics and are not decided.")
-EXPLANATION += " Further clauses: (R5) NAME-AGREE - a field filled from a like-named field or annotation key is filled from that one; (R6) ENUM-MAP - the sibling mapping tables agree; (R7) FALLBACK-ORDER - precedence of the two sources of one field (frozen table of 4 rows); (R8) REF-TRANSPARENT - every cast treats a named reference as its value; (R9) JOIN-AGREE (shared C10.R5); (R10) every `res` statement is enumerated; (R11) COMPONENT-KEPT (shared C03.R1). (R12) COMBINE - the combinators of spec.rs carry what the language says (concat: the right operand's query parameters only; a schema used as content keeps its description; a URI used as relation is its uri). (R13) MERGED-ENTRY - an output entry shared by several declarations is added to, never overwritten field-wise; (R14) GRAMMAR-AGREE - every kind of child a production attaches is read by some typed accessor of the parent; (R15) SHARED-VALUE - the cached value of a reference does not depend on use-site annotations. R12 also requires the whole right path to be appended by concat; (R16) RANGE-KEY - the status of a response is fixed when its content is evaluated and the emitter uses the key unchanged; (R17) ANNOTATION-PLACE (shared C05.R1); (R18) PER-CONTENT - headers and description are taken from every content of a transfer, with or without a body."
+EXPLANATION += " Further clauses: (R5) NAME-AGREE - a field filled from a like-named field or annotation key is filled from that one; (R6) ENUM-MAP - the sibling mapping tables agree; (R7) FALLBACK-ORDER - precedence of the two sources of one field (frozen table of 4 rows); (R8) REF-TRANSPARENT - every cast treats a named reference as its value; (R9) JOIN-AGREE (shared C10.R5); (R10) every `res` statement is enumerated; (R11) COMPONENT-KEPT (shared C03.R1). (R12) COMBINE - the combinators of spec.rs carry what the language says (concat: the right operand's query parameters only; a schema used as content keeps its description; a URI used as relation is its uri). (R13) MERGED-ENTRY - an output entry shared by several declarations is added to, never overwritten field-wise; (R14) GRAMMAR-AGREE - every kind of child a production attaches is read by some typed accessor of the parent; (R15) SHARED-VALUE - the cached value of a reference does not depend on use-site annotations. R12 also requires the whole right path to be appended by concat; (R16) RANGE-KEY - the status of a response is fixed when its content is evaluated and the emitter uses the key unchanged; (R17) ANNOTATION-PLACE (shared C05.R1); (R18) PER-CONTENT - headers and description are taken from every content of a transfer, with or without a body; (R19) PRECEDENCE - the operators | ~ & :: nest in the language's order (frozen table of 4 tokens); (R20) METHOD-FREE - only the function that files an operation under its method looks at the method."
 TECHNIQUE = "static analysis: field read/write census on MIR + insertion-site census classified by resolved callee with a frozen triage table"
 
 SPEC_OWNER = re.compile(r'^(oal_compiler::)?spec::(\w+)$')
@@ -391,6 +391,73 @@ def r13_merged_assign(c, facts, rule='C02.R13'):
     c.floor(R, 'shared-entry lookups examined', nsites, 2)
 
 
+# frozen: the binding strength of the four schema operators, loosest first (what `a ~ b | c ~ d` means)
+PRECEDENCE = ['OperatorVerticalBar', 'OperatorTilde', 'OperatorAmpersand', 'OperatorDoubleColon']
+
+
+def r19_precedence(c, facts, rule='C02.R19'):
+    """`a ~ b | c ~ d` is a sum of two any-ofs: each variadic operator takes as operands the expressions of the next
+    tighter one. The chain is read from the productions (operator token and operand production of every
+    parse_variadic_op call) and compared with the language's order."""
+    R = c.rule(rule, 'PRECEDENCE: the operators | ~ & :: nest in the language\'s order of binding strength')
+    links = {}
+    for fn in facts.fns.values():
+        if fn.crate != 'oal_syntax' or not fn.hir or '{closure' in fn.qname:
+            continue
+        for e, anc in hir_walk(fn.hir['body']):
+            if e['k'] == 'call' and (callee_def(e) or '').endswith('parse_variadic_op') and len(e['args']) >= 4:
+                op = variant_of(e['args'][2].get('p')) if e['args'][2]['k'] == 'path' else None
+                m = re.search(r'\{parser::(\w+)', e['args'][3].get('ty', ''))
+                links[fn.qname.split('::')[-1]] = (op, m.group(1) if m else None)
+    c.floor(R, 'variadic operator productions', len(links), 4)
+    # follow the operand productions from the loosest operator
+    by_op = {op: (name, nxt) for name, (op, nxt) in links.items()}
+    order = []
+    cur = by_op.get(PRECEDENCE[0])
+    seen = set()
+    while cur and cur[0] not in seen:
+        seen.add(cur[0])
+        order.append(links[cur[0]][0])
+        cur = (cur[1], links[cur[1]][1]) if cur[1] in links else None
+    inst = {'chain': order, 'language': PRECEDENCE}
+    if order == PRECEDENCE:
+        c.ok(R, inst)
+    else:
+        c.bad(R, 'operator-precedence:%s' % '<'.join(x.replace('Operator', '') for x in order), 'the operators nest as %s (loosest first) instead of %s: an unparenthesised mix such as `a ~ b | c ~ d` is read with another structure, and the document says something else than the program' % (order, PRECEDENCE), **inst)
+
+
+def r20_method_free(c, facts, rule='C02.R20'):
+    """an operation is emitted from its transfer whatever the method: only the function that files operations under
+    their method (and the one that prints a method) looks at it - an emitter that consults the method can drop a declared
+    part for some methods (`get : <body> -> ..`)"""
+    R = c.rule(rule, 'METHOD-FREE: no part of an operation (parameters, request body, responses, tags) depends on its method')
+    ALLOWED = {'relation_path_item': 'files the operation under its method', 'method_label': 'prints the method', 'xfer_id': 'the default operationId starts with the method'}
+    n = 0
+    for g in sorted(facts.fns.values(), key=lambda f: f.qname):
+        if g.crate != 'oal_openapi' or not g.mir:
+            continue
+        n += 1
+        hit = False
+        for b, blk in g.blocks():
+            for st in blk['stmts']:
+                if st['s'] == 'assign' and st['rv']['r'] == 'discr' and re.search(r'(^|[^\w(])(oal_syntax::)?atom::Method$', st['rv']['place'].get('ty', '')):
+                    hit = True
+        for b, t in g.calls():
+            info = callee_of(t)
+            if info and info['def'].endswith(('PartialEq::eq', 'PartialEq::ne')) and any(a.get('ty', '').endswith('atom::Method') for a in t['args']):
+                hit = True
+        if not hit:
+            continue
+        home = facts.home(g).qname.split('::{closure')[0].split('::')[-1]
+        inst = {'fn': g.qname, 'branches on': 'atom::Method'}
+        if home in ALLOWED:
+            inst['why'] = ALLOWED[home]
+            c.ok(R, inst)
+        else:
+            c.bad(R, '%s:depends-on-method' % home, '%s decides what it emits by the method of the operation: a part declared for a transfer is emitted for some of its methods only' % g.qname, **inst)
+    c.floor(R, 'emitter functions examined', n, 30)
+
+
 def r18_per_content(c, facts, rule='C02.R18'):
     """a response has headers and a description whether or not it has a body: in the loop over the contents of a
     transfer the two are taken from every content - not only from those with a schema (`<status=201, headers={..}>`)"""
@@ -656,6 +723,8 @@ def run(c, facts):
     import grammar
     c.run(lambda c: grammar.agree(c, facts, 'C02.R14', floor=12))
     c.run(r18_per_content, facts)
+    c.run(r19_precedence, facts)
+    c.run(r20_method_free, facts)
     c.run(r13_merged_assign, facts)
     import c05 as _c05
     R17 = c.rule('C02.R17', 'ANNOTATION-PLACE: annotations written at a use, on a parameter occurrence or on parentheses reach the value they are written on, with the precedence the language defines (shared with C05.R1)')
